@@ -2,7 +2,7 @@
    Only ExtrOcamlBasic is used (bool, option, unit, list, prod, sumbool
    mapped to OCaml's; andb/orb inlined); Z, N, positive, nat stay the
    extracted inductive datatypes. *)
-From Strcase Require Import Base Utf8 Fold Spec FoldTables.
+From Strcase Require Import Base Utf8 Fold Spec FoldTables Impl Kernels.
 From Coq Require Import Extraction ExtrOcamlBasic.
 Extraction Language OCaml.
 
@@ -49,7 +49,15 @@ Definition s_contains_non_ascii := contains_non_ascii.
 Definition s_k_index_byte := k_index_byte.
 Definition s_k_count := k_count.
 
+Definition i_compare_str := Impl.Compare fold121 lower_str Str.
+Definition i_compare_byt := Impl.Compare fold121 lower_byt Byt.
+Definition i_index_byte_generic := index_byte_generic.
+Definition i_count_generic := count_generic.
+Definition i_count_simd := count_simd.
+Definition i_index_non_ascii_generic := index_non_ascii_generic.
+
 Extraction "model.ml"
+  i_compare_str i_compare_byt i_index_byte_generic i_count_generic i_count_simd i_index_non_ascii_generic
   m_case_fold m_fold_map m_fold_map_excl m_to_upper_lower m_lower_str m_lower_byt
   m_decode m_decode_last m_rune_len m_valid_rune m_encode m_rune_count m_valid_utf8
   s_compare s_equal_fold s_index s_contains s_last_index s_has_prefix s_has_suffix
